@@ -14,12 +14,12 @@
    `Counter` is a function with default 0; `defaultdict(list)` keyed by the register class
    is a pair of lists.  Exceptions are explicit; `while` loops carry fuel (`OutOfFuel`).
 
-   `cfg` selects between the code as it is in the pinned tree (`unchanged`) and the two
-   proposed repairs (build/proposed_fixes/C20-1.diff, C20-2.diff):
-     root_free = true : a tree root (a register that is only read) is appended to the list
-                        of free registers after its tree has been emitted   [line "if dst_type
-                        not in src_by_dst_type: free_registers[...].append(dst_type)"]
-     xor_old   = true : the xor-swap chain of the pinned tree (pivot stays in `out`). *)
+   `cfg` selects the variant of the code: `unchanged` is the originally pinned tree, `repaired` the tree
+   with C20-1 (a read-only tree root is no longer appended to the free list) and C20-2 (xor-swap chain
+   direction) applied, `repaired_all` additionally has the proposed C20-3 (non-trivial moves into `zero`
+   are emitted at the top of the first loop and kept out of the graph), C20-4 (unprocessed_children keyed
+   by register) and C20-5 (width looked up by output register).  The first-loop tables, the counter key
+   and the width lookup are parameters of the loops (Section Lower) and are chosen by `rewrite`. *)
 From Coq Require Import ZArith List Bool.
 Import ListNotations.
 Local Open Scope Z_scope.
